@@ -411,8 +411,24 @@ func Tokenize(in []byte) TokenizeResult {
 			return string(in[start:pos])
 		}
 		if meta && isMetaRune(r) {
-			v := run(isMetaRune)
+			// blanks in front of a key or value were skipped above, blanks behind it are trivia too
+			v := strings.TrimRightFunc(run(isMetaRune), unicode.IsSpace)
 			res.Tokens = append(res.Tokens, Token{"METADATA", v})
+			continue
+		}
+		if expectSymbol && r == ';' {
+			// a comment between `_` and its symbol is trivia like anywhere else outside braces
+			for {
+				r, sz := peek()
+				if r == -1 {
+					res.EndsInsideRun = true
+					break
+				}
+				pos += sz
+				if r == '\n' {
+					break
+				}
+			}
 			continue
 		}
 		if expectSymbol {
